@@ -2,7 +2,7 @@
    Only property theorems here; each closed by `exact` of a lemma from Proofs/. *)
 From Flyt Require Import Base Script FlowTable Engine EngineCorr EngineFacts SpecEngine
      C02Proofs EngineSpecProofs.
-From Flyt Require Import C02Glue.
+From Flyt Require Import C02Glue BatchConcItems.
 
 (* The retry loop of Run (flyt.go:719-738) with budget N >= 1, for every oracle, node kind,
    wait and prep value: if nothing cancels the context, the exec events it appends number
@@ -57,3 +57,8 @@ Theorem C02_spec_holds_of_model :
   forall sc : escen, spec_C02 sc (eobs_of_model (model_obs sc)) = true.
 Proof. exact spec_C02_model_lemma. Qed.
 Print Assumptions C02_spec_holds_of_model.
+
+(* whatever the node's GetMaxRetries says, Run and the batch item loop make at least one attempt *)
+Theorem C02_budget_at_least_one : forall c, 1 <= fst (retry_of c).
+Proof. exact retry_of_pos. Qed.
+Print Assumptions C02_budget_at_least_one.
